@@ -183,7 +183,7 @@ inline asl::Var parseChunks(const std::string& t, const std::vector<size_t>& cut
 		p.parse(chunk.c_str());
 		a = b;
 	}
-	p.parse(" ");
+	p.parse("\n"); // the flush of XdlParser::decode() (spec/XdlSM.tla: Flush)
 	return p.value();
 }
 
